@@ -12,9 +12,9 @@ import (
 )
 
 // control-flow panics used by the engine
-type abortErr struct{ msg string }   // unmodelled construct: path inconclusive
-type pathEnd struct{ kind string }   // path ends (assume-false, violation, infeasible, unwind, blocked)
-type goPanic struct {                // a Go-level panic in interpreted code
+type abortErr struct{ msg string } // unmodelled construct: path inconclusive
+type pathEnd struct{ kind string } // path ends (assume-false, violation, infeasible, unwind, blocked)
+type goPanic struct {              // a Go-level panic in interpreted code
 	val   Value
 	msg   string
 	where string
@@ -86,29 +86,32 @@ type Interp struct {
 	cur      *frame
 
 	// per-path outcome
-	violations []*Violation
-	reached    map[string]bool
-	funcsSeen  map[*ssa.Function]int
-	stubsSeen  map[string]int
-	asserts    int // assertion queries discharged (unsat) on this path
-	assumes    []string
-	spawned    []deferred
-	pcN        int
-	gid        int // current goroutine id (0 = main)
-	heldLocks  map[*Value]bool
-	lockOrder  map[string]bool
-	expectPanic bool
-	unknownBranch int
-	opts    *Options
-	res     *HarnessResult
-	splitOf map[string][]Term
-	ptrIDs  map[*Value]int
-	guardsOff bool
-	quotedOf map[string]Term
-	rtypes   map[string]*Value
-	ordTerms []Term
-	blobStrs map[int]Term
-	lockCount map[*Value]int
+	violations        []*Violation
+	reached           map[string]bool
+	funcsSeen         map[*ssa.Function]int
+	stubsSeen         map[string]int
+	asserts           int // assertion queries discharged (unsat) on this path
+	assumes           []string
+	spawned           []deferred
+	pcN               int
+	gid               int // current goroutine id (0 = main)
+	heldLocks         map[*Value]bool
+	lockOrder         map[string]bool
+	expectPanic       bool
+	unknownBranch     int
+	opts              *Options
+	res               *HarnessResult
+	splitOf           map[string][]Term
+	ptrIDs            map[*Value]int
+	guardsOff         bool
+	quotedOf          map[string]Term
+	rtypes            map[string]*Value
+	ordTerms          []Term
+	blobStrs          map[int]Term
+	blobByID          map[int]*Blob
+	hints             []string
+	jsonClassDeclared bool
+	lockCount         map[*Value]int
 }
 
 func (in *Interp) newID() int { in.objID++; return in.objID }
@@ -1066,7 +1069,18 @@ func (in *Interp) bytesToString(s Slice) Term {
 			t, ok := in.blobStrs[s.Seq.Blob.ID]
 			if !ok {
 				t = in.freshStr("blobtext")
+				// a document's text is never empty, and two documents have the same text exactly when they are structurally equal
+				in.assume(tNot(tEq(t, mkStr(""))))
+				for id, u := range in.blobStrs {
+					if other := in.blobByID[id]; other != nil {
+						in.assume(tEq(tEq(t, u), in.blobEq(s.Seq.Blob, other)))
+					}
+				}
 				in.blobStrs[s.Seq.Blob.ID] = t
+				if in.blobByID == nil {
+					in.blobByID = map[int]*Blob{}
+				}
+				in.blobByID[s.Seq.Blob.ID] = s.Seq.Blob
 			}
 			return t
 		}
